@@ -248,11 +248,26 @@ def np_mean(interp, a, axis=None, keepdims=False):
 
 
 @lib("numpy.prod")
-def np_prod(interp, a, axis=None):
+def np_prod(interp, a, axis=None, keepdims=False):
     a = _a(a)
-    if axis is not None:
-        raise Unsupported("np.prod(axis)")
-    return T.prod([x for x in a.tolist()]) if a.rank == 1 else T.prod(sum(a.tolist(), []))
+    dims = T._normalize_dims(a, axis)
+    isf = a.dtype == FLOAT
+    one = 1.0 if isf else 1
+    mul = V.f_mul if isf else V.i_mul
+    return _ret(T.reduce_unrolled(a, dims, keepdims, one, mul, dtype=a.dtype))
+
+
+def nan_comb(which):
+    """One step of nanmax / nanmin: NaNs are ignored, an all-NaN fold stays NaN."""
+
+    def comb(acc, x):
+        xn = V.f_isnan(x)
+        an = V.f_isnan(acc)
+        better = V.f_lt(acc, x) if which == "max" else V.f_lt(x, acc)
+        take_x = V.b_and(V.b_not(xn), V.b_or(an, better))
+        return V.f_ite(V.zbool(take_x), x, acc) if not isinstance(take_x, bool) else (x if take_x else acc)
+
+    return comb
 
 
 def _nan_reduce(a, axis, which, keepdims=False):
@@ -262,13 +277,7 @@ def _nan_reduce(a, axis, which, keepdims=False):
     if not all(T.conc(a.shape[d]) for d in dims):
         raise Unsupported("nan-reduction over a symbolic axis")
 
-    def comb(acc, x):
-        # acc, x floats; NaN ignored
-        xn = V.f_isnan(x)
-        an = V.f_isnan(acc)
-        better = V.f_lt(acc, x) if which == "max" else V.f_lt(x, acc)
-        take_x = V.b_and(V.b_not(xn), V.b_or(an, better))
-        return V.f_ite(V.zbool(take_x), x, acc) if not isinstance(take_x, bool) else (x if take_x else acc)
+    comb = nan_comb(which)
 
     r = T.reduce_unrolled(T.to_dtype(a, FLOAT), dims, keepdims, None, comb,
                           empty_error=("ValueError", ("zero-size array to reduction operation fmax which has no identity",)))
